@@ -14,8 +14,8 @@ ASSUMPTIONS = [
 ]
 
 
-def op(kind, tag, mult, take=None):
-    return "proc %s %d %s %s" % (kind, tag, "M" if mult else "S", "all" if take is None else "take %d" % take)
+def op(kind, tag, mult, take=None, panic=False):
+    return "proc %s %d %s %s" % (kind, tag, "M" if mult else "S", "all" if take is None else "%s %d" % ("panic" if panic else "take", take))
 
 
 def valid_histories(n, start, kinds):
@@ -150,7 +150,9 @@ def gen_valid(tier, seed):
                 if all(t is None for t in takes):
                     continue
                 cid += 1
-                cases.append(Case("d%d" % cid, ["new 1"] + [op(kinds[i], t, m, takes[i]) for i, (_k, t, m) in enumerate(h)]))
+                # every third pattern: the early drops happen by unwinding (the consumer panics while it
+                # holds the iterator) instead of by leaving the loop
+                cases.append(Case("d%d" % cid, ["new 1"] + [op(kinds[i], t, m, takes[i], panic=(cid % 3 == 0)) for i, (_k, t, m) in enumerate(h)]))
     return cases
 
 
@@ -174,7 +176,7 @@ def suites(tier, seed):
     return [
         Suite("smoother-valid", "smoother", lambda: gen_valid(tier, seed), monitor=monitor, nontrivial=nontrivial,
               spec_engine="smoother-spec", exhaustive=True,
-              rule="corpus + ALL valid histories (own tag always new) with every ack/nack labelling for n<=%d tags, starts {1,7}; n=%d sampled kinds/starts {1,7,2^63}; every early-drop pattern (take 0/1/2/all per call) for n<=%d" % (
+              rule="corpus + ALL valid histories (own tag always new) with every ack/nack labelling for n<=%d tags, starts {1,7}; n=%d sampled kinds/starts {1,7,2^63}; every early-drop pattern (take 0/1/2/all per call; a third of them dropped by a panic of the consumer, i.e. during unwinding) for n<=%d" % (
                   4 if tier == "quick" else 5, 5 if tier == "quick" else 6, 3 if tier == "quick" else 4)),
         Suite("smoother-arbitrary", "smoother", lambda: gen_arbitrary(tier, seed), monitor=monitor, nontrivial=nontrivial,
               spec_engine="smoother-spec",
